@@ -103,12 +103,15 @@ def ctor_faults(res, lean):
         os.makedirs(os.path.join(base, "a", "b"))
         os.makedirs(os.path.join(base, "c"))
         n_watches = 4   # root, a, a/b, c
-        for pos in [None] + list(range(0, n_watches + 1)):
+        # kernel calls of the construction: 0 = inotify_init, 1 = pipe (the wake-up channel), 2.. = the inotify_add_watch calls
+        for pos in [None] + list(range(0, n_watches + 2)):
             for e in (errno.ENOENT, errno.ENOSPC, errno.EMFILE, errno.EACCES):
                 if pos is None and e != errno.ENOENT:
                     continue
                 if pos == 0 and e == errno.EACCES:
                     continue   # not an errno inotify_init can return (and `_raise_error` ignores EACCES by design)
+                if pos == 1 and e != errno.EMFILE:
+                    continue   # pipe() fails with EMFILE / ENFILE
                 k = fakefd.FakeKernel()
                 if pos is not None:
                     k.fail_at[pos] = e
@@ -123,7 +126,7 @@ def ctor_faults(res, lean):
                     undo()
                 res.count()
                 res.bump("ctor_fault_cases")
-                if e == errno.EACCES and pos not in (None, 0):
+                if e == errno.EACCES and pos not in (None, 0, 1):
                     # EACCES on add_watch is deliberately not an error (`_raise_error` returns): nothing to compare
                     if raised:
                         bad.append((pos, e, "raised on EACCES"))
@@ -261,6 +264,63 @@ def real_cycles(res, n):
         shutil.rmtree(base, ignore_errors=True)
 
 
+def make_emitter_run(root):
+    """start() of an InotifyEmitter racing its stop() (BaseObserver.start() runs outside the observer's lock: stop(),
+    unschedule() or unschedule_all() can overtake an emitter that is still inside on_thread_start) - real
+    InotifyEmitter / InotifyBuffer / Inotify over the fake kernel under the deterministic scheduler"""
+    import queue
+
+    from watchdog.observers import inotify as inotify_mod
+    from watchdog.observers.api import ObservedWatch
+
+    def run_one(chooser):
+        k = fakefd.FakeKernel()
+        undo = fakefd.install(k)
+        sched = detsched.Scheduler(chooser, max_steps=3000)
+        failure = None
+        em_box = {}
+        try:
+            em = sched.create(lambda: inotify_mod.InotifyEmitter(queue.Queue(), ObservedWatch(root, recursive=True)))
+            em_box["em"] = em
+
+            def starter():
+                em.start()
+
+            def stopper():
+                em.stop()
+                try:
+                    em.join()
+                except RuntimeError:
+                    pass          # join() of a thread that was not started yet: what `_clear_emitters` tolerates
+
+            try:
+                sched.run_threads([starter, stopper], ["1", "2"])
+            except (detsched.Deadlock, detsched.StepLimit) as e:
+                failure = e
+        finally:
+            undo()
+        left = sorted(set(list(sched.stuck) + [t.name for t in sched.order if t.status != "done"]))
+        result = {"schedule": [t[3] for t in sched.trace], "failure": failure, "uncaught": list(sched.uncaught),
+                  "violations": list(k.violations), "open": k.open_fds(), "left": left,
+                  "line": " ".join(f"{','.join(en)}>{ch}" for _n, _c, en, ch, _l in sched.trace)}
+        return sched, result
+
+    return run_one
+
+
+def judge_emitter(result):
+    if result["violations"]:
+        return "descriptor misuse: " + "; ".join(result["violations"])
+    if result["uncaught"]:
+        return f"uncaught exception in a library thread: {result['uncaught']!r}"
+    if isinstance(result["failure"], detsched.Deadlock) and ("1" in result["left"] or "2" in result["left"]):
+        return f"start()/stop() of the emitter deadlock: {result['failure']}"
+    if not isinstance(result["failure"], detsched.StepLimit) and (result["open"] or result["left"]):
+        return (f"after start() and stop() + join() of the emitter have both returned: descriptors still open {result['open']}, "
+                f"threads still running {result['left']}")
+    return None
+
+
 def run(res, tier, lean, proof_breaks=(), build_log=""):
     r = common.rng("c12")
     thorough = tier == "thorough"
@@ -326,6 +386,26 @@ def run(res, tier, lean, proof_breaks=(), build_log=""):
             bad.append((line, i, o, plan))
     res.cov["traces_validated_against_impl"] = len(lines)
     res.sample({"request": lines[0], "implementation": impl[0], "model": outs[0]})
+    # (d) an emitter's start() overtaken by its stop()
+    ebad = []
+    root3 = tempfile.mkdtemp(prefix="wdverif-c12e-", dir=os.environ.get("TMPDIR") or None)
+    try:
+        run_e = make_emitter_run(root3)
+        eruns = list(explore.dfs(run_e, 3 if thorough else 2, 600 if thorough else 150, {})) + \
+            list(explore.random_runs(run_e, r, 80 if thorough else 25))
+        for _sched, result in eruns:
+            res.count()
+            res.bump("emitter_start_stop_runs")
+            v = judge_emitter(result)
+            if v:
+                ebad.append((v, result))
+    finally:
+        shutil.rmtree(root3, ignore_errors=True)
+    if ebad:
+        ebad.sort(key=lambda b: len(b[1]["schedule"]))
+        v, result = ebad[0]
+        res.violation(f"InotifyEmitter start() racing stop(): {v}",
+                      {"schedule": result["line"], "failing_runs": len(ebad)}, signature="c12-emitter-start-stop")
     cbad, cmism = ctor_faults(res, lean)
     rbad = real_cycles(res, 60 if thorough else 15)
     if judged:
@@ -347,6 +427,15 @@ def run(res, tier, lean, proof_breaks=(), build_log=""):
     if rbad:
         res.violation("real kernel: descriptor/thread counts do not return to their previous values: " + "; ".join(rbad),
                       {"measurements": rbad}, signature="c12-real-cycles")
+    if proof_breaks and not res.violations:
+        # the statement shapes of BaseThread.start/stop / InotifyEmitter.on_thread_start/on_thread_stop, regenerated from
+        # the source, are no longer the ones the hand-over model (WD.Hand) was written from; every explored interleaving
+        # of the real emitter's start() and stop() was judged and none leaked
+        res.violation("WD.Handover.shape_agrees_with_source no longer checks: the source of the emitter's start/stop hand-over "
+                      "has changed shape, the theorem WD.Handover.handover is no longer tied to it; every explored "
+                      "interleaving of start() and stop() of the real emitter released everything",
+                      {"theorem_no_longer_checks": list(proof_breaks), "lean_error": build_log[-3000:]}, no_input=True,
+                      signature="c12-handover-shape")
     if (bad or cmism) and not (judged or cbad or rbad or res.violations):
         line, i, o = (bad[0][:3] if bad else cmism[0])
         res.violation("correspondence WD.Fd <-> Inotify/InotifyBuffer broken (theorems C12.* no longer tied to the code); every "
